@@ -327,6 +327,10 @@ def s5(otype):
                            # values that begin and end with a quote character of the kind not used to write them
                            "'a','b'", "'[x]' = 'y'", "'q'", "'"):
                     yield ("S5 %s.%s string" % (otype, s.key), Block(otype, [kw(s.key, V.Rep([("str", sv)], sv, ["qstr"]))]))
+                if any(b.kind in ("expression", "regex", "attribute") for b in s.alts):
+                    # quoted strings that begin and end like another lexical class of the same slot without being a member of it
+                    for sv in ("(abc)", "(a) - (b)", "[a] and [b]", "/a/b/", "{a} or {b}"):
+                        yield ("S5 %s.%s string shaped like another class" % (otype, s.key), Block(otype, [kw(s.key, V.Rep([("str", sv)], sv, ["qstr"]))]))
                 break
 
 
